@@ -32,6 +32,14 @@ func dispatchMore(cmd string, r *prng, count int, extra string) bool {
 		runDiscWholeBatch(r, count)
 	case "disc-race":
 		emit(runDiscRace(r, count))
+	case "admission":
+		runAdmissionAll()
+	case "admission-one":
+		runAdmissionOne(extra)
+	case "deadline":
+		runDeadlineAll()
+	case "deadline-one":
+		runDeadlineOne(extra)
 	default:
 		return false
 	}
